@@ -19,13 +19,18 @@ func init() {
 	replays["C27"] = opsReplay("portmap", runPmOps, func(r *Result, ops, impl []string) { pmOracle(r, ops, impl) })
 }
 
+// pmAddr: the remote address of a call. Names starting with "loop" are loopback addresses (IPv4, IPv6 and
+// IPv4-mapped), every other name is a non-loopback one (IPv4, global and unique-local IPv6, IPv4-mapped).
 func pmAddr(who string) net.Addr {
-	switch who {
-	case "loop":
-		return &net.TCPAddr{IP: net.ParseIP("127.0.0.1"), Port: 900}
+	ip := map[string]string{"loop": "127.0.0.1", "loop2": "127.8.9.10", "loop6": "::1", "loopm": "::ffff:127.0.0.1",
+		"other": "8.8.8.8", "other6": "2001:db8::17", "otherula": "fd00::5", "otherm": "::ffff:10.0.0.1", "otherll": "fe80::1"}[who]
+	if ip == "" {
+		ip = "8.8.8.8"
 	}
-	return &net.TCPAddr{IP: net.ParseIP("8.8.8.8"), Port: 900}
+	return &net.TCPAddr{IP: net.ParseIP(ip), Port: 900}
 }
+
+func isLoopName(who string) bool { return strings.HasPrefix(who, "loop") }
 
 func runPmOps(ops []string) []string {
 	pm := absnfs.NewPortmapper()
@@ -141,7 +146,7 @@ func pmOracle(r *Result, ops, impl []string) {
 			if !wellFormed() {
 				r.violate(Violation{Class: "C27/malformed-reply", What: fmt.Sprintf("%s: reply %s is not a well-formed RFC 1831 accepted reply echoing the XID", kind, impl[i]), Ops: pre(i)})
 			}
-			if who != "loop" {
+			if !isLoopName(who) {
 				break // must not change anything: judged by the following `reg`
 			}
 			if kind == "misc" || kind == "garbage" {
@@ -197,9 +202,9 @@ func genPmCase(rng *rand.Rand, n int) []string {
 	ops := []string{"pm reset " + hx([]byte("127.0.0.1"))}
 	progs := []uint32{100003, 100005, 100000, 7}
 	for len(ops) < n {
-		who := "loop"
+		who := []string{"loop", "loop", "loop", "loop2", "loop6", "loopm"}[rng.Intn(6)]
 		if rng.Intn(3) == 0 {
-			who = "other"
+			who = []string{"other", "other", "other6", "otherula", "otherm", "otherll"}[rng.Intn(6)]
 		}
 		p, v := progs[rng.Intn(len(progs))], uint32(1+rng.Intn(3))
 		t := []uint32{6, 17}[rng.Intn(2)]
@@ -267,7 +272,7 @@ func genPmCase(rng *rand.Rand, n int) []string {
 }
 
 func checkC27(r *Result, rng *rand.Rand, thorough bool) {
-	r.Rule = "sequences of SET/UNSET/GETPORT/GETADDR/DUMP/NULL calls over portmap v2 and rpcbind v3/v4 from a loopback and a non-loopback TCP address, with valid, truncated and random records, unknown programs/versions/procedures; the registry is read back after every call; non-trivial = sequence contains a successful SET; distinct = distinct op sequences"
+	r.Rule = "sequences of SET/UNSET/GETPORT/GETADDR/DUMP/NULL calls over portmap v2 and rpcbind v3/v4 from loopback addresses (127.0.0.1, 127.8.9.10, ::1, ::ffff:127.0.0.1) and non-loopback ones (8.8.8.8, 2001:db8::17, fd00::5, fe80::1, ::ffff:10.0.0.1), with valid, truncated and random records, unknown programs/versions/procedures; the registry is read back after every call; non-trivial = sequence contains a successful SET; distinct = distinct op sequences"
 	ncases, n := 120, 60
 	if thorough {
 		ncases, n = 5000, 120
@@ -318,7 +323,7 @@ func checkNonLoopback(r *Result, ops, impl []string) {
 		}
 		if f[1] == "reg" {
 			if i > 0 && strings.HasPrefix(ops[i-1], "pm call other") && impl[i] != last {
-				r.violate(Violation{Class: "C27/non-loopback-modifies", What: fmt.Sprintf("a call from 8.8.8.8 changed the registry from {%s} to {%s}", last, impl[i]), Ops: append([]string(nil), ops[:i+1]...)})
+				r.violate(Violation{Class: "C27/non-loopback-modifies", What: fmt.Sprintf("a call from a non-loopback address (" + strings.Fields(ops[i-1])[2] + ") changed the registry from {%s} to {%s}", last, impl[i]), Ops: append([]string(nil), ops[:i+1]...)})
 			}
 			last = impl[i]
 		}
